@@ -135,5 +135,35 @@ using U1 = server<
     service< SU< 0x1002 >, CH( 0xA001, v0, notify ), CH( 0xA003, v2, indicate ) >,
     higher_outgoing_priority< SU< 0x1002 > > >;
 
+// ---- characteristics that share a UUID (the UUID alone does not name a characteristic) ----
+template < std::uint64_t A > using CU128 = bluetoe::characteristic_uuid< A, 0x1111, 0x2222, 0x3333, 0x444444444444 >;
+#define CH128( A, V, ... ) bluetoe::characteristic< CU128< A >, bluetoe::bind_characteristic_value< decltype( V ), &V >, ##__VA_ARGS__ >
+
+// the same 16 bit characteristic UUID in two services, the second service has the higher priority:
+// notify< 0xA001 >() is the FIRST characteristic with that UUID in declaration order (v0)
+using X1 = server<
+    service< SU< 0x1001 >, CH( 0xA001, v0, notify ), CH( 0xA002, v1, notify ) >,
+    service< SU< 0x1002 >, CH( 0xA001, v5, notify, indicate ), CH( 0xA003, v2, indicate ) >,
+    higher_outgoing_priority< SU< 0x1002 > > >;
+
+// shared UUIDs without any priority (also twice in one service, and a third time in the second service)
+using X2 = server<
+    service< SU< 0x1001 >, CH( 0xA001, v0, notify ), CH( 0xA001, v1, notify, indicate ), CH( 0xA002, v2, indicate ) >,
+    service< SU< 0x1002 >, CH( 0xA002, v5, notify ), CH( 0xA001, v6, notify ) > >;
+
+// a shared 128 bit UUID, reordered by a service level and a server level priority; the 128 bit UUID's
+// as_16bit() equals the 16 bit UUID 0xA001 of another characteristic; the first characteristic with
+// UUID 0xA002 has no CCCD (notify< 0xA002 >() does not compile although a later one could be notified)
+using X3 = server<
+    service< SU< 0x1001 >, CH128( 0x0000A001, v0, notify ), CH( 0xA001, v1, notify ), CH( 0xA002, v9 ),
+        higher_outgoing_priority< CU< 0xA001 > > >,
+    service< SU< 0x1002 >, CH128( 0x0000A001, v6, notify, indicate ), CH( 0xA002, v7, notify ) >,
+    higher_outgoing_priority< SU< 0x1002 > > >;
+
+// three characteristics reordered cyclically ( c, a, b ): the permutation differs from its inverse
+using C3 = server< service< SU< 0x1001 >,
+    CH( 0xA001, v0, notify ), CH( 0xA002, v1, notify, indicate ), CH( 0xA003, v2, notify ),
+    higher_outgoing_priority< CU< 0xA003 > > > >;
+
 }
 #endif
